@@ -8,6 +8,7 @@
   the document list.
 -/
 import Lungo.Model.Api
+import Lungo.Model.Session
 import Lungo.Spec.I64Ok
 namespace Lungo
 
@@ -119,5 +120,11 @@ def Sys.run (sch : SchemaEval) (s : Sys) (calls : List (Call × List V)) : Sys :
   calls.foldl (fun s co => match Sys.step sch s co.1 co.2 with
     | .ok (s', _) => s'
     | .error _ => s) s
+
+/-- the invariant of the session-level system: the committed catalog and the catalog of every open
+    session transaction satisfy `Inv` (all with the one global identity counter) -/
+def SSysInv (sch : SchemaEval) (s : SSys) : Prop :=
+  SysInv sch s.sys ∧
+  ∀ k st t, (k, st) ∈ s.sessions → st.txn = some t → Inv sch t.catalog s.sys.nextId
 
 end Lungo
